@@ -46,7 +46,16 @@ def many_network(draw, hazards=()):
     nested = draw(st.integers(0, 3)) == 0  # launches happen inside a starter fiber
     as_arg = draw(st.booleans())  # the data channel is passed as an argument instead of captured
     boxed = draw(st.integers(0, 2)) == 0  # values travel boxed in fresh lists (heap objects)
-    return {"mode": "M", "boxed": boxed, "ns": ns, "nr": nr, "cap": cap, "counts": counts, "order": [list(o) for o in order],
+    # early close: one of the receivers closes the channel after its q-th value while senders may still be sending (a
+    # value already handed over is still delivered, later sends are refused with an error the sender catches)
+    early = None
+    if draw(st.integers(0, 2)) == 0:
+        # [closing receiver, after how many values, does it stop receiving afterwards (only with another receiver left
+        # to drain the channel)]
+        # ...; does it make a round trip with a helper fiber right after closing (so that it parks on another channel
+        # while values may still sit in the closed one)]
+        early = [draw(st.integers(0, nr - 1)), draw(st.integers(1, 3)), nr >= 2 and draw(st.booleans()), draw(st.booleans())]
+    return {"mode": "M", "boxed": boxed, "early": early, "ns": ns, "nr": nr, "cap": cap, "counts": counts, "order": [list(o) for o in order],
             "closer": closer, "work": work, "nested": nested, "as_arg": as_arg}
 
 
@@ -57,22 +66,36 @@ def call(f, *args):
 def build_program(net):
     ns, nr = net["ns"], net["nr"]
     data = V("d") if net["as_arg"] else V("data")
+    early = net.get("early")
     prog = [("let", "data", call("chan", N(net["cap"])) if net["cap"] else call("chan")),
             ("let", "done", call("chan", N(ns))),
             ("let", "finished", N(0)),
-            ("let", "sink", N(0))]
+            ("let", "sink", N(0)),
+            ("let", "clock", N(0)),
+            ("fn", "tick", [], [("expr", ("assign", V("clock"), ("bin", "+", V("clock"), N(1)))), ("return", V("clock"))])]
     for j in range(nr):
         prog.append(("let", "res%d" % j, call("chan", N(1))))
     work = ("for", "w", ("call", ("prop", V("wk"), "times"), []), [("expr", ("assign", V("sink"), ("bin", "+", V("sink"), N(1))))])
-    sbody = [("let", "i", N(0)),
-             ("while", ("bin", "<", V("i"), V("k")), [
+    value = ("bin", "+", ("bin", "*", V("id"), N(1000)), V("i"))
+    payload = ("list", [value]) if net.get("boxed") else value
+
+    def line(who, what, val=None):
+        parts = [who, ("var", "id"), " " + what + " "] + ([val, " "] if val is not None else []) + ["@", call("tick")]
+        return ("print", ("interp", parts))
+    sbody = [("let", "i", N(0)), ("let", "open", ("true",)),
+             ("while", ("bin", "&&", V("open"), ("bin", "<", V("i"), V("k"))), [
                  ("expr", ("assign", V("i"), ("bin", "+", V("i"), N(1)))),
-                 ("expr", ("send", data, ("list", [("bin", "+", ("bin", "*", V("id"), N(1000)), V("i"))]) if net.get("boxed")
-                           else ("bin", "+", ("bin", "*", V("id"), N(1000)), V("i")))),
+                 line("S", "trying", value),
+                 ("try", [("expr", ("send", data, payload)), line("S", "sent", value)],
+                  [("e", None, [line("S", "refused", value), ("expr", ("assign", V("open"), ("false",)))])]),
                  work]),
              ("expr", ("assign", V("finished"), ("bin", "+", V("finished"), N(1))))]
+    # (a second close raises ChannelError: with an early close the regular one is wrapped)
+    def close_stmt(ch):
+        c = ("expr", ("call", ("prop", ch, "close"), []))
+        return ("try", [c], [("ce", None, [])]) if early else c
     if net["closer"] == "last-sender":
-        sbody.append(("if", ("bin", "==", V("finished"), N(ns)), [("expr", ("call", ("prop", data, "close"), []))], None))
+        sbody.append(("if", ("bin", "==", V("finished"), N(ns)), [close_stmt(data)], None))
     sbody.append(("expr", ("send", V("done"), V("id"))))
     prog.append(("fn", "sender", ["id", "k", "wk"] + (["d"] if net["as_arg"] else []), sbody))
     rbody = [("let", "log", ("list", [])),
@@ -80,12 +103,28 @@ def build_program(net):
                  ("let", "v", ("recv", data)),
                  ("if", ("bin", "==", V("v"), ("nil",)), [("break",)], None),
                  ("expr", ("call", ("prop", V("log"), "push"), [("index", V("v"), N(0)) if net.get("boxed") else V("v")])),
+                 line("R", "got", ("index", V("v"), N(0)) if net.get("boxed") else V("v")),
+                 ] + ([("if", ("bin", "&&", ("bin", "==", V("id"), N(early[0])),
+                               ("bin", "==", ("call", ("prop", V("log"), "len"), []), N(early[1]))),
+                        # (a round trip before the close lets a parked sender put its next value into the channel, one
+                        # after it makes the closer park elsewhere while that value is still there)
+                        ([("expr", ("send", V("ping"), V("id"))), ("let", "pg0", ("recv", V("pong")))] if len(early) > 3 and early[3] else [])
+                        + [("try", [("expr", ("call", ("prop", data, "close"), [])), line("R", "closed")], [("ce", None, [])])]
+                        + ([("expr", ("send", V("ping"), V("id"))), ("let", "pg", ("recv", V("pong")))] if len(early) > 3 and early[3] else [])
+                        + ([("break",)] if len(early) > 2 and early[2] else []),
+                        None)] if early else []) + [
                  ("if", ("bin", ">", ("call", ("prop", data, "len"), []), ("call", ("prop", data, "capacity"), [])),
                   [("print", S_("CAPACITY EXCEEDED"))], None),
                  work]),
              ("expr", ("send", V("res"), V("log")))]
     prog.append(("fn", "receiver", ["id", "res", "wk"] + (["d"] if net["as_arg"] else []), rbody))
     launches = []
+    if early and len(early) > 3 and early[3]:
+        prog.append(("let", "ping", call("chan")))
+        prog.append(("let", "pong", call("chan")))
+        prog.append(("fn", "helper", [], [("expr", ("send", V("pong"), ("recv", V("ping")))),
+                                          ("expr", ("send", V("pong"), ("recv", V("ping"))))]))
+        prog.append(("launch", call("helper")))
     for kind, i in net["order"]:
         extra = [V("data")] if net["as_arg"] else []
         if kind == "s":
@@ -101,7 +140,7 @@ def build_program(net):
     prog.append(("while", ("bin", "<", V("n"), N(ns)), [("expr", ("recv", V("done"))),
                                                           ("expr", ("assign", V("n"), ("bin", "+", V("n"), N(1))))]))
     if net["closer"] == "main":
-        prog.append(("expr", ("call", ("prop", V("data"), "close"), [])))
+        prog.append(close_stmt(V("data")))
     for j in range(nr):
         prog.append(("print", ("interp", ["R%d " % j, ("recv", V("res%d" % j))])))
     prog.append(("print", S_("END")))
@@ -128,13 +167,28 @@ def parse(stdout):
     return logs, stray
 
 
+EVENT = re.compile(r"^([SR])(\d+) (trying|sent|refused|got|closed) (?:(-?\d+) )?@(\d+)$")
+
+
+def events(stray):
+    """-> (list of (who, id, what, value or None, clock), other lines)"""
+    ev, rest = [], []
+    for line in stray:
+        m = EVENT.match(line)
+        if m:
+            ev.append((m.group(1), int(m.group(2)), m.group(3), int(m.group(4)) if m.group(4) is not None else None, int(m.group(5))))
+        else:
+            rest.append(line)
+    return ev, rest
+
+
 def sent_values(net):
     return [(i + 1) * 1000 + k for i in range(net["ns"]) for k in range(1, net["counts"][i] + 1)]
 
 
 def describe(net, r, logs):
-    return ("senders %s, receivers %d, capacity %d, closer %s\nvm outcome %s %s, logs %s\nstderr: %s" %
-            (net["counts"], net["nr"], net["cap"], net["closer"], r.get("outcome"), r.get("code"), logs,
+    return ("senders %s, receivers %d, capacity %d, closer %s, early close %s\nvm outcome %s %s, logs %s\nstderr: %s" %
+            (net["counts"], net["nr"], net["cap"], net["closer"], net.get("early"), r.get("outcome"), r.get("code"), logs,
              (r.get("stderr") or "").strip()[-300:]))
 
 
@@ -162,7 +216,33 @@ def safety_failure(prop, net, r, src):
                 return Failure("%s/many/reordered" % prop, "receiver %d got %d after %d from the same sender\n%s\n--- source\n%s" %
                                (j, v, last[s], describe(net, r, logs), src), info)
             last[s] = v
+    ev, stray = events(stray)
+    clock = {}
+    for (who, i, what, v, t) in ev:
+        clock.setdefault((what, v), t)
+    closed_at = min([t for (who, i, what, v, t) in ev if what == "closed"], default=None)
+    done_ok = set(v for (who, i, what, v, t) in ev if what == "sent")
+    refused = set(v for (who, i, what, v, t) in ev if what == "refused")
+    for v in sorted(seen & refused):
+        return Failure("%s/many/refused-value-delivered" % prop, "the send of %d raised, yet the value was received\n%s\n--- source\n%s" %
+                       (v, describe(net, r, logs), src), info)
+    if closed_at is not None:
+        for (who, i, what, v, t) in ev:
+            if what == "sent" and clock.get(("trying", v), 0) > closed_at:
+                return Failure("%s/many/send-after-close-accepted" % prop,
+                               "the send of %d began (clock %d) after the channel was closed (clock %d) and did not raise\n%s\n--- source\n%s" %
+                               (v, clock[("trying", v)], closed_at, describe(net, r, logs), src), info)
+    if net["cap"] == 0:
+        # rendezvous: a synchronous send returns only after its value was taken
+        for v in sorted(done_ok):
+            if ("got", v) not in clock or clock[("got", v)] > clock[("sent", v)]:
+                return Failure("%s/many/sync-send-returned-before-take" % prop,
+                               "synchronous send of %d returned at clock %d but the value was %s\n%s\n--- source\n%s" %
+                               (v, clock[("sent", v)], "taken at %d" % clock[("got", v)] if ("got", v) in clock else "not taken yet",
+                                describe(net, r, logs), src), info)
     if r.get("outcome") == "ok" and "END" in stray:
+        if net.get("early"):
+            sent = done_ok  # exactly the values whose send returned normally have to arrive
         if len(logs) != net["nr"]:
             return Failure("%s/many/missing-log" % prop, "the program finished but %d of %d receiver logs were printed\n%s\n--- source\n%s" %
                            (len(logs), net["nr"], describe(net, r, logs), src), info)
@@ -178,6 +258,9 @@ def progress_failure(prop, net, r, src):
     info = {"source": src}
     if r.get("outcome") == "ok" and r.get("code") == 0 and "END" in stray:
         return None
+    if r.get("outcome") == "runtime_error" and "Fatal error deadlock." not in (r.get("stderr") or "") and \
+            any("refused" in l for l in stray):
+        pass  # falls through to unexpected-outcome below
     if r.get("outcome") == "budget":
         return Failure("%s/many/spins" % prop, "the network exceeded its step budget\n%s\n--- source\n%s" %
                        (describe(net, r, logs), src), info)
